@@ -68,12 +68,16 @@ CLAIMED['C20'] = dict(
 CLAIMED['C06'] = dict(
     text='Lean 4 theorems over a pure model of DeepHash._hash (every hasher, every value size/nesting): the hash of a dict does not depend on insertion order in any mode; '
          'of a set/frozenset on its listing (hence on PYTHONHASHSEED) and of a list/tuple on item order in the order-insensitive modes; a container depends on its children '
-         'only through their hashes (permutations at any depth propagate). Negative witness in Lean for sets in the ordered mode (F19). The model is tied to the code by '
+         'only through their hashes (permutations at any depth propagate). Sharing or pre-seeding the hash table: over a model of _hash with self.hashes threaded through (lookup by == '
+         'before, store after), for every table that only holds right answers, every history of values hashed into it and every value of a universe on which keys the table identifies '
+         'hash equally (NoNumAlias), the digest through the table is the digest computed from scratch (C06_memo_transparent, C06_shared_table_history, C06_preseeded); Lean negative '
+         'witness outside that universe (F6: 1.0 answered with the digest of 1). Negative witness in Lean for sets in the ordered mode (F19). The model is tied to the code by '
          'bit-for-bit digest and count comparison (own SHA-256) over generated values x 4 modes, incl. apply_hash=False serialisations; deep copies, re-inserted dicts, '
-         'permuted lists, shared / pre-seeded / long-lived tables and 3-16 PYTHONHASHSEED subprocesses are evaluated on the implementation.',
+         'permuted lists, shared / pre-seeded / long-lived tables and 3-16 PYTHONHASHSEED subprocesses are evaluated on the implementation; the table model is compared digest for digest with '
+         'DeepHash(w) followed by DeepHash(v, hashes=table), aliasing pairs included.',
     design='5/C06',
-    note='Trusted: Lean kernel; hashlib.sha256 (parameter). Partial: the memo-table transparency theorem is not proved yet (observed on the implementation inside NoNumAlias; '
-         'finding F6 is its boundary witness).',
+    note='Trusted: Lean kernel; hashlib.sha256 (parameter). Unhashable objects are stored under their id and never found again in a tree-shaped value (recycled ids of freed '
+         'objects and in-place edits between calls are exercised on the implementation only). PYTHONHASHSEED subprocesses: evaluation. Known findings F6, F19.',
     technique='Lean 4 proof (permutation invariance via sorted-permutation uniqueness) + bit-exact differential correspondence')
 CLAIMED['C07'] = dict(
     text='Lean 4 theorem (set and multiset modes, i.e. order ignored, the default): for every injective hasher whose digests are non-empty and free of the framing characters , | : ; '
